@@ -305,6 +305,19 @@ func c18UnknownSubstitution(r *Run) {
 			return map[string]interface{}{"a": map[string]interface{}{"b": map[string]interface{}{"c": u}}}
 		}, `"/a/b/c"`},
 	}
+	// the same for a selector that goes through a quantifier's value variable: the element that lacks the key against the element that holds u
+	for ui, u := range []interface{}{"none", "", 1, nil, true} {
+		for _, f := range []string{"any items as it { it.zone == none }", `all items as _, it { it.zone != "none" }`, "any items as it { it.zone is empty }", "any items as it { on in it.zone }", "any m as k, v { v.zone == none }", "all items as it { it.meta.zone == none }"} {
+			missing := map[string]interface{}{"items": []interface{}{map[string]interface{}{"a": 1, "meta": map[string]interface{}{}}, map[string]interface{}{"zone": "x", "meta": map[string]interface{}{"zone": "x"}}}, "m": map[string]interface{}{"p": map[string]interface{}{"a": 1}}}
+			with := map[string]interface{}{"items": []interface{}{map[string]interface{}{"a": 1, "zone": u, "meta": map[string]interface{}{"zone": u}}, map[string]interface{}{"zone": "x", "meta": map[string]interface{}{"zone": "x"}}}, "m": map[string]interface{}{"p": map[string]interface{}{"a": 1, "zone": u}}}
+			got, want := exprObs(f, missing, bexpr.WithUnknownValue(u)), exprObs(f, with)
+			r.Evaluations += 2
+			r.Seen(fmt.Sprintf("unknown-through-binding|%d|%s|%s", ui, f, got))
+			if classOf(got) != classOf(want) {
+				r.Violate("unknown-value-not-substituted", fmt.Sprintf("binding|%d|%s", ui, f), map[string]interface{}{"expression": f, "datum": describe(missing), "unknown_value": describe(u)}, "with the unknown value "+got+"; on the datum whose element holds that value: "+want)
+			}
+		}
+	}
 	us := []interface{}{"none", "", 1, nil, []interface{}{"on", 1}, true, 1.5, map[string]interface{}{"on": 1}}
 	forms := []string{"%s == none", `%s != "none"`, "on in %s", "on not in %s", "%s is empty", "%s is not empty", "%s matches `^n`", "%s == 1", "any %s as x { x == on }", "all %s as x { x != on }", "not %s == none", "%s == none or %s == 1"}
 	for pi, p := range pairs {
